@@ -37,6 +37,10 @@ def run (ctx):
     n_loops += 1
     _loop(ctx, repo, f, L)
     _caller_contract(ctx, repo, f, L)
+  # what a framed message is delivered to must not depend on which read() it arrived in (shared with C09)
+  from . import c09
+  ofm = repo.mod('openflow.of_01'); con_ = ofm.classes.get('Connection')
+  if con_ is not None: c09.current_table_dispatch(ctx, repo, ofm, con_, 'D6')
   ctx.floor('framing loops with roles assigned', n_loops, 2)
   _buffers(ctx, repo)
   _decoder_table(ctx, repo)
